@@ -1,8 +1,9 @@
 """C19 — stream writes/reads transfer each value exactly once, in order (Kani, in-crate)."""
-import re
+import os, re
 from vlib import kani
 from vlib.kani import Harness
 from . import rt_common as rc
+from . import rustgen
 
 S = 'crates/guest-rust/src/rt/async_support/stream_support.rs'
 A = 'crates/guest-rust/src/rt/async_support/abi_buffer.rs'
@@ -51,6 +52,15 @@ def run(rep, tier):
     rep.assume('static-dispatch mock StreamOps (the `&StreamVtable<T>` impl is 13 one-line forwarders, not covered here)',
                'bounded in buffer length (<= 3) — labelled bounded, not counted as proved; complete over the codes the ABI allows for that length',
                'NOT covered: write_all / write_one / next / collect loops and the futures::Stream adapter (compose the verified single operations); MAX_LENGTH clamp (needs 2^28 items)',
-               'composition argument: registration/unregistration/delivery of the waitable is C18; this property adds the per-operation contracts')
+               'composition argument: registration/unregistration/delivery of the waitable is C18; this property adds the per-operation contracts',
+               'the in-crate obligations use a mock StreamOps whose lower / lift / dealloc_lists only count calls; what the GENERATED hooks do (and that a payload whose lowering allocates has a dealloc_lists hook at all) is decided on the real generator\'s output for one probe world (payload.* obligations, heap ledger as in C06)')
     kani.run_harnesses(rep, rc.CRATE, harnesses(tier), rc.FEATURES, rc.TARGET, timeout_each=(1800 if tier == 'thorough' else 400), harness_file='/verif/harness/c19.rs', jobs=(6 if tier == 'thorough' else 10))
     rep.functions.append(S + ', ' + A + ' (real code, driven in place by /verif/harness/c19.rs)')
+    # the generated side: the payload vtables the real Rust generator emits (which hooks exist, and what they free)
+    GP = 'generated StreamVtable<T> for kani/rustgen_strm/probe.wit (crates/rust/src/interface.rs generate_payload: lower / lift / dealloc_lists / layout) - '
+    BP = 'one probe world; string length fixed per obligation (0, 1, 2), contents symbolic; both outcomes (transferred / not transferred)'
+    PAY = [Harness('c19_payload_string_len%d' % n, 'payload.string_len%d' % n, GP + 'stream<string>, %d byte(s)' % n, bounded=BP) for n in (0, 1, 2)] + \
+          [Harness('c19_payload_record_with_string_len%d' % n, 'payload.record_with_string_len%d' % n, GP + 'stream<record { u32, string }>, %d byte(s)' % n, bounded=BP) for n in (0, 1)] + \
+          [Harness('c19_payload_without_heap_needs_no_release', 'payload.without_heap_needs_no_release', GP + 'stream<u8> (canonical) and stream<bool>', bounded=BP)]
+    d = rustgen.generate(rep, 'rustgen_strm')
+    kani.run_harnesses(rep, d, PAY, None, 'kani-rustgen', timeout_each=900, harness_file=os.path.join(d, 'src/lib.rs'), guard=False, canary_id='canary.kani.payload')
